@@ -215,6 +215,68 @@ def check_explicit_names(backend, acc):
         acc.violation(f"{backend}:explicit:wrong-hardware:{label}", dict(case, vec=v), (int(ref.oa), int(ref.ob)), (inst.get_port("oa"), inst.get_port("ob")), label); break
 
 
+def shipped_designs():
+  """designs pymtl3 ships (stdlib, examples): hierarchies with many instances of the same few classes at different places"""
+  import pymtl3.stdlib.queues.queues as Q
+  import pymtl3.stdlib.stream.queues as SQ
+  import pymtl3.stdlib.basic_rtl.arbiters as A
+  import pymtl3.stdlib.basic_rtl as B
+  from pymtl3 import Bits8, Bits4, Bits16, Bits32, mk_bits
+  out = [("NormalQueueRTL(2)", lambda: Q.NormalQueueRTL(Bits8, 2)), ("PipeQueueRTL(2)", lambda: Q.PipeQueueRTL(Bits8, 2)), ("BypassQueueRTL(2)", lambda: Q.BypassQueueRTL(Bits8, 2)),
+         ("NormalQueueRTL(1)", lambda: Q.NormalQueueRTL(Bits8, 1)), ("PipeQueueRTL(1)", lambda: Q.PipeQueueRTL(Bits8, 1)), ("BypassQueueRTL(1)", lambda: Q.BypassQueueRTL(Bits8, 1)),
+         ("stream.NormalQueueRTL(2)", lambda: SQ.NormalQueueRTL(Bits8, 2)), ("stream.PipeQueueRTL(2)", lambda: SQ.PipeQueueRTL(Bits8, 2)), ("stream.BypassQueueRTL(2)", lambda: SQ.BypassQueueRTL(Bits8, 2)),
+         ("stream.NormalQueueRTL(1)", lambda: SQ.NormalQueueRTL(Bits8, 1)), ("stream.PipeQueueRTL(1)", lambda: SQ.PipeQueueRTL(Bits8, 1)), ("stream.BypassQueueRTL(1)", lambda: SQ.BypassQueueRTL(Bits8, 1)),
+         ("RoundRobinArbiter(4)", lambda: A.RoundRobinArbiter(4)), ("RoundRobinArbiterEn(4)", lambda: A.RoundRobinArbiterEn(4)),
+         ("RegisterFile", lambda: B.RegisterFile(Bits8, 4, 2, 2)), ("Crossbar", lambda: B.Crossbar(3, Bits16)), ("Encoder", lambda: B.Encoder(5, 3)),
+         ("Mux", lambda: B.Mux(Bits8, 4)), ("RegEnRst", lambda: B.RegEnRst(Bits8, 3))]
+  def ex(modname, cls, *args):
+    def f():
+      import importlib
+      return getattr(importlib.import_module(modname), cls)(*args)
+    return f
+  def ex04():
+    from examples.ex04_xcel.ProcXcel import ProcXcel
+    from examples.ex04_xcel.ChecksumXcelRTL import ChecksumXcelRTL
+    from examples.ex03_proc.ProcRTL import ProcRTL
+    return ProcXcel(ProcRTL, ChecksumXcelRTL)
+  out += [("ex02.ChecksumRTL", ex("examples.ex02_cksum.ChecksumRTL", "ChecksumRTL")), ("ex04.ChecksumXcelRTL", ex("examples.ex04_xcel.ChecksumXcelRTL", "ChecksumXcelRTL")),
+          ("ex03.ProcRTL", ex("examples.ex03_proc.ProcRTL", "ProcRTL")), ("ex04.ProcXcel", ex04)]
+  return out
+
+
+def check_shipped(backend, acc, only=None):
+  """every shipped design translates (a refusal because of a module-name collision is a violation), every module is defined once, every
+  instantiated module is defined, identifiers are unique (own parser)"""
+  for name, factory in shipped_designs():
+    if only and name != only: continue
+    case = dict(kind="shipped", design=name, backend=backend)
+    acc.count("evaluations"); acc.count("shipped")
+    try:
+      text, top = trcheck.translate(factory, backend)
+    except Exception as ex:
+      if "already uses that module name" in str(ex):
+        acc.violation(f"{backend}:shipped:name-collision-refused:{name}", case, "translates; instances of one class with the same parameters share one definition",
+                      "translator: two different bodies for one module name (translation refused)", " ".join(str(ex).split())[-200:])
+      else:
+        acc.count("shipped_not_translatable"); acc.add("translate_errors", f"{name}:{backend}:{type(ex).__name__}:{' '.join(str(ex).split())[-80:]}")
+      continue
+    mods = re.findall(r"^module\s+(\S+)", text, re.M)
+    if len(mods) != len(set(mods)):
+      dup = sorted(m for m in set(mods) if mods.count(m) > 1)
+      acc.violation(f"{backend}:shipped:module-defined-twice:{name}", case, "every module defined once", dup[:3], name); continue
+    try:
+      des = svsim.Design(text)
+      for mn, md in des.mods.items():
+        for mod, iname, conns in md["insts"]:
+          if mod not in des.mods: raise SvSyntaxError(f"{mn} instantiates undefined module {mod}")
+      svsim.Inst(des, top)
+      acc.count("shipped_parsed")
+    except SvSyntaxError as ex:
+      acc.violation(f"{backend}:shipped:invalid-text:{name}", case, "every instantiated module defined, unique legal identifiers", str(ex)[:160], name)
+    except svsim.Unsupported as ex:
+      acc.count("shipped_outside_parser_subset"); acc.add("translate_errors", f"{name}:{backend}:parser:{str(ex)[:80]}")
+
+
 def check_mangle(name, backend, acc):
   r = trcheck.check_class(name, D.MANGLE[name], backend, acc, lambda imap: [{r: (13 * (k + 1) + 7 * j) & 0xFF for k, (r, w, _) in enumerate(imap)} for j in range(6)])
   return r
@@ -293,6 +355,7 @@ def shards(tier):
   S = [("pairs", b, i) for b in ("sv", "yosys") for i in range(n)]
   S += [("det",)]
   S += [("misc",)]
+  S += [("shipped", b) for b in ("sv", "yosys")]
   return S
 
 
@@ -312,6 +375,8 @@ def run_shard(shard, tier, seed):
     if i % 9 == 0: acc.sample(dict(kind="pair", a=cat[i][0], b=cat[(i + 3) % len(cat)][0], backend=backend))
   elif kind == "det":
     check_det(acc, tier)
+  elif kind == "shipped":
+    check_shipped(shard[1], acc)
   else:
     for b in ("sv", "yosys"):
       check_setparam(b, acc)
@@ -330,6 +395,8 @@ def replay(case):
     return [(v["sig"], v["expected"], v["observed"], v["msg"]) for v in acc.violations if v["case"].get("label") == case["label"]][:3]
   elif case.get("kind") == "setparam":
     check_setparam(case["backend"], acc)
+  elif case.get("kind") == "shipped":
+    check_shipped(case["backend"], acc, only=case["design"])
   elif case.get("kind") == "class":
     check_mangle(case["design"], case["backend"], acc)
   elif case.get("kind") == "determinism":
